@@ -22,7 +22,7 @@ for pid in sorted(PROPS):
         "engine": m["world"],
         "level_claimed": {"category": m["level"], "text": m["level_text"], "design_ref": m.get("design_ref", "DESIGN.md section 3")},
         "level_note": m["level_note"],
-        "technique": m.get("technique") or st.get("technique", {}).get(pid, "deterministic simulation with fault injection (seeded schedule/fault search, oracle over recorded history)")),
+        "technique": m.get("technique") or st.get("technique", {}).get(pid, "deterministic simulation with fault injection (seeded schedule/fault search, oracle over recorded history)"),
     })
 na = []
 for i in range(1, 32):
